@@ -62,3 +62,59 @@ def bool_fn_value(fn, atom, inl=None):
             continue
         return v     # reached for sure: returns are mutually exclusive along one execution
     return None if unknown or not rets else False
+
+
+def symbolic_return(fn, values=False):
+    """canonical text of the value returned by a straight-line function: declarations and plain assignments at the top level of
+    the body are substituted in program order (so `T r = a; r = max(r, b); return r;`, `return max(a, b);` and any naming /
+    hoisting in between print the same); throwing guards and early `return` guards are skipped; a local written anywhere else
+    (inside a loop or a branch) makes the result unknown ('?')"""
+    import astu
+    env = {}
+    dirty = set()
+
+    def sub(e):
+        return astu.txt(e, env)
+    body = stmts_of(fn.get("body"))
+    nested_writes = set()
+    for s in body:
+        if s.get("k") in ("Decl", "Expr", "Return"):
+            continue
+
+        def w(n):
+            if n.get("k") == "Assign" and strip(n["l"]).get("k") == "Ref":
+                nested_writes.add(strip(n["l"])["d"])
+            if n.get("k") == "Un" and n.get("op") in ("++", "--") and strip(n.get("e") or {}).get("k") == "Ref":
+                nested_writes.add(strip(n["e"])["d"])
+        walk(s, w)
+    out = None
+    for s in body:
+        k = s.get("k")
+        if k == "Decl":
+            for v in s.get("vars", []):
+                if "d" in v and v.get("init") is not None:
+                    env[v["d"]] = _frozen(sub(v["init"]))
+        elif k == "Expr":
+            e = strip(s.get("e"))
+            if isinstance(e, dict) and e.get("k") == "Assign" and strip(e["l"]).get("k") == "Ref":
+                d = strip(e["l"])["d"]
+                if e.get("op") == "=":
+                    env[d] = _frozen(sub(e["r"]))
+                else:
+                    env[d] = _frozen("(%s%s%s)" % (sub(e["l"]), e["op"][:-1], sub(e["r"])))
+        elif k == "Return" and s.get("e") is not None:
+            bad = [d for d in nested_writes if any(x.get("d") == d for x in _refs(s["e"], env))]
+            out = "?" if bad else sub(s["e"])
+    old = astu._VALUES[0]
+    return astu.C(out) if out is not None else None
+
+
+def _frozen(text):
+    """a synthetic node that prints as the given text (used as an inlining value)"""
+    return {"k": "Ref", "n": text, "d": None, "dk": "synthetic"}
+
+
+def _refs(e, env):
+    out = []
+    walk(e, lambda x: out.append(x) if x.get("k") == "Ref" else None)
+    return out
